@@ -58,6 +58,7 @@ func init() {
 }
 
 func runC23(c *Ctx) {
+	lastExpiringCovers(c, "E2-signer-covers-segment")
 	eT := "(*control/beaconing.DefaultExtender)"
 	v := c.View(eT + ".Extend")
 	if v != nil {
